@@ -299,9 +299,10 @@ def lex_initial(s: Scanner) -> None:
     elif s.accept("="):
         s.emit(TokenType.EQUAL)
     elif s.accept_prefix("/*"):
+        comment_position = s.get_position()
         while not s.accept_prefix("*/"):
             if s.next() is None:
-                raise ScannerException("Unterminated comment", s.get_position())
+                raise ScannerException("Unterminated comment", comment_position)
         s.emit(TokenType.COMMENT)
     else:
         if s.next() is not None:
